@@ -6,6 +6,14 @@ HISTORY = {
     "C01-a": "MISSED by the checks as first built (the planted-SVD stub ignored the arguments of the decomposition). Strengthened: the hook now receives the SVD's convergence tolerance / iteration bound and the obligation SVD.tolerance requires a constant <= 1e-9; native confirmation through the failing C01 obligations.",
     "C13-a": "first run: the solver refuted C13.correlation_normalised but the native replay could not confirm it (values ~1e-8 below the replay tolerance) -> exit 2, no VIOLATION. Strengthened: obligation C13.correlation_unit_diagonal (corr_aa = 1 given C_aa > 0, O(1) values) and per-obligation assumptions.",
     "C14-a": "would have been MISSED by the data-flow harness as first built (p from a 4-value grid, all < 0.9999). Strengthened before the run: harness k_band_quantile_argument_all_p checks the quantile argument for every f64 p in (0,1).",
+    "C02-b": "MISSED on the first run (exit 0): the builder-call-order configurations were only part of C18's check. Strengthened: C02 and C06 now also run the `order` configurations (weights before observations, repeated setters).",
+    "C16-b": "MISSED on the first run (exit 0): arities >= 4 were only exercised by one rotation each. Strengthened: per arity 4..10 rotation, reversal, endpoints-fixed inner permutations, adjacent swaps, seeded random permutations, and strict subsets with gaps of a larger parameter list.",
+    "C14-b": "the change removes the private field `degrees_of_freedom`, which the overlay access module and the Kani harness name: as first built the harness would not have compiled (exit 2, no verdict). Strengthened before the run: accessors of private fields are optional (fallback build without them) and the band radius is checked natively through the public API against t((1+p)/2; N-M-P)*sqrt(j^T Cov j).",
+    "C13-b": "the change routes the inverse through an SVD, which the symbolic engine cannot carry without a planted factorisation (now reported as `unsupported`, no verdict for the symbolic part). Caught by the native validation at extreme weight scales (10^-9, 10^6) with the sigma^2-normalised identity, added before the run.",
+    "C04-b": "caught by the A->B->A update history (added to the `hist` configurations before the run) and, independently, by the native scenario fwsmap that existed before.",
+    "C15-b": "would have been MISSED by the hand-written list of call sequences. Strengthened before the run: a reference predicate written from the property statement and a systematic enumeration of function sequences over 2..3 model parameters (229 quick / 1281 thorough programs).",
+    "C11-b": "needs S right-hand sides not divisible by ceil(S/threads): S=3 with 2 threads and S=5 with 3 threads were added to the relpar configurations before the run.",
+    "C18-b": "Engine M: `Matrix::len` got an exact summary (rows*cols) before the run so that the solver model replays natively; the native buildcase grid also covers it.",
     "C04-a": "first evaluation design: Engine M alone reported it but its native replay scenario did not cover LostPatience; the native scenario fitmap now enumerates all 13 termination reasons.",
 }
 rows = []
